@@ -59,7 +59,10 @@ CHECKS: dict[str, dict] = {
         "assumptions": ["values are small integers in float32 and scalars are powers of two, so the oracle is bit-exact"],
     },
     "C13": {
-        "batches": _e1("relayout", {"relayout": 3}, 600, 24000),
+        "batches": lambda tier: _e1("relayout", {"relayout": 3}, 500, 20000)(tier) + [
+            {"engine": "e4_lifecycle", "label": "serialise", "profile": {"mode": "serialise"}, "n_runs": 160 if tier == "quick" else 4000, "budget_s": 110 if tier == "quick" else 1200},
+            {"engine": "e4_lifecycle", "label": "lifecycle", "profile": {"mode": "lifecycle"}, "n_runs": 64 if tier == "quick" else 2000, "budget_s": 80 if tier == "quick" else 900},
+        ],
         "rule": E1_RULE,
         "level_text": "Seeded search over operation-and-transport histories of real MultiImage objects against an unordered reference model, compared bit-exactly by type after every step; failing histories are delta-debugged to a few operations and replayed from a file. Sampling, not proof.",
         "level_note": "Trusted: the numpy reference semantics in sim/engines/e1_container.py (about 250 lines), JAX as installed. Values are small integers so float32 arithmetic is exact.",
@@ -77,6 +80,25 @@ CHECKS: dict[str, dict] = {
         "design_ref": "DESIGN.md section 3 (C14)",
         "components": REAL_STUB,
         "assumptions": ["the per-image reference is the library's own single-image operation applied entry by entry"],
+    },
+    "C20": {
+        "batches": lambda tier: [
+            {"engine": "e4_lifecycle", "label": "lifecycle", "profile": {"mode": "lifecycle"}, "n_runs": 320 if tier == "quick" else 8000, "budget_s": 200 if tier == "quick" else 1800},
+        ],
+        "rule": (
+            "seeded (model class in ConvContract/ConvBlock/ResNet/DilResNet/UNet, equivariant flag, unsorted input/output signatures incl. pseudo-types and unequal channels, "
+            "depth, convs, norm, all five bias modes, activation, pre-activation, d in {2,3}, torus flag, extents compatible with pooling) x a life-cycle history of 3-8 events "
+            "(tree_map identity, inference_mode on/off, optimiser update, save->load into a twin through the fault-injecting SimDisk, filter_jit call, transported input); "
+            "after every event the model is called directly and types, channels, type order, spatial shape, D and flags are compared with the requested signature restricted to "
+            "the types reachable through the bank (computed independently from the bank's key set). distinct = hash of the event-kind sequence incl. disk-fault kinds; "
+            "non-trivial = at least one life-cycle event was executed"
+        ),
+        "components": REAL_STUB,
+        "assumptions": ["configurations whose own residual additions would be ill-typed for the bank are skipped and counted", "values returned by a JAX transformation (filter_jit) are checked for types/channels/shape only: their order is JAX's sorted order"],
+        "level_text": "Seeded search over constructor settings and model life-cycle histories; after every event the real model is called and its output signature, order, shape and flags are compared with the request. Sampling, not proof; the deciding content is the life-cycle history, the constructor space is swarm-sampled.",
+        "level_note": "Trusted: the reachability oracle (modelzoo.expected_signature, 50 lines), SimDisk. Every architecture costs seconds of XLA compilation, so a quick run covers a few hundred life-cycles.",
+        "technique": "deterministic simulation of model life-cycle histories (pytree boundary crossings, optimiser updates, checkpoint/restore through a fault-injecting simulated disk) x swarm-sampled constructor knobs, conformance oracle after every event",
+        "design_ref": "DESIGN.md section 3 (C20)",
     },
     "C16": {
         "batches": lambda tier: [{"engine": "e3_rollout", "label": "rollout", "profile": {}, "n_runs": 1500 if tier == "quick" else 60000, "budget_s": 150 if tier == "quick" else 1500}],
